@@ -102,9 +102,7 @@ def monitor(ctx, st):
         return
     base_rel = os.path.relpath(w.base, w.sandbox)  # 'w'
     if name == "flatten":
-        dest_abs = w.expand(op["argv"][2])
-        if not os.path.isabs(dest_abs):
-            dest_abs = os.path.normpath(os.path.join(w.expand(op["cwd"]) if op.get("cwd") else w.default_cwd(), dest_abs))
+        dest_abs = w.abs_of(op["argv"][2], op.get("cwd"))
         dest = os.path.relpath(dest_abs, w.sandbox)
         ctx.nontrivial = ctx.nontrivial or has_hist
         for rel in added + removed + changed:
@@ -179,6 +177,20 @@ def monitor(ctx, st):
                     ctx.violate({"kind": "create-touched-media", "cmd": name, "cause": kind},
                                 f"{desc}: {kind} on {r}")
                     return
+        # new generations only in histories that are in scope of the command (not in ignored nested histories)
+        if getattr(st, "pre_asc", None) is not None and res.outcome[0] == "exit" and res.outcome[1] in (0, 10, 11):
+            from .. import model
+
+            A = model.analyze_create(st)
+            if A is not None and not A.error:
+                prev = A.prev_patterns_root or []
+                sf_na = A.mode == "sf" and any(p_ not in observe.default_patterns() for p_ in prev)
+                for hr in A.new:
+                    if hr not in A.hist_roots and not sf_na:
+                        ctx.violate({"kind": "create-wrote-into-history-out-of-scope", "cmd": name},
+                                    f"{desc}: new generation in {os.path.relpath(hr, w.root)!r}, which is ignored / not below the "
+                                    f"command root (histories in scope: {[os.path.relpath(h, w.root) for h in A.hist_roots]})")
+                        return
         if res.outcome[0] == "exit" and res.outcome[1] in (30, 31, 32, 33) and (added or changed):
             ctx.violate({"kind": "refused-create-wrote", "cmd": name}, f"{desc}: {added[:3]} {changed[:3]}")
             return
@@ -220,7 +232,9 @@ def execute(sc, ctx):
         st.index, st.op, st.world = i, op2, w
         if scen.is_cmd(op2):
             st.pre = core.snapshot(w.sandbox)
+            st.pre_asc = scen.all_ascmhl_files(w.sandbox) if op2["argv"][0] == "create" else None
             res, fired = scen.run_op(w, op2)
+            st.post_asc = scen.all_ascmhl_files(w.sandbox) if op2["argv"][0] == "create" else None
             # run_child restamps mtimes of touched entries; take the post snapshot afterwards but compare
             # mtimes only for entries the command did not legitimately create
             st.post = core.snapshot(w.sandbox)
